@@ -25,6 +25,31 @@ pub fn rss_bytes() -> u64 {
         .unwrap_or(0)
 }
 
+/// kernel thread id of the calling thread (Linux: /proc/thread-self -> <pid>/task/<tid>)
+pub fn my_tid() -> u64 {
+    std::fs::read_link("/proc/thread-self")
+        .ok()
+        .and_then(|p| p.file_name().map(|f| f.to_string_lossy().to_string()))
+        .and_then(|s| s.parse::<u64>().ok())
+        .unwrap_or(0)
+}
+
+/// CPU time (user + system, in clock ticks of 1/100 s) consumed so far by a thread of this
+/// process. A hang is a run that keeps consuming CPU without finishing; wall-clock time is
+/// no measure of that on a loaded machine, where a healthy thread may simply not be scheduled.
+pub fn thread_cpu_ticks(tid: u64) -> Option<u64> {
+    if tid == 0 {
+        return None;
+    }
+    let stat = std::fs::read_to_string(format!("/proc/self/task/{tid}/stat")).ok()?;
+    // fields after the parenthesised command name: state is #3, utime #14, stime #15
+    let rest = &stat[stat.rfind(')')? + 1..];
+    let fields: Vec<&str> = rest.split_whitespace().collect();
+    let utime = fields.get(11)?.parse::<u64>().ok()?;
+    let stime = fields.get(12)?.parse::<u64>().ok()?;
+    Some(utime + stime)
+}
+
 /// a simulated run that makes the process grow beyond this is runaway allocation (normal:
 /// well under 2 GB even for the thorough tier)
 pub fn rss_limit() -> u64 {
@@ -181,9 +206,12 @@ pub struct CheckOpts {
 struct Beat {
     index: AtomicU64,
     since: Mutex<Instant>,
-    /// seconds this run may take (huge cases, e.g. 65536 live bindings, legitimately take
-    /// half a minute because the library's variable store is a linear list)
+    /// seconds of CPU this run may take (huge cases, e.g. 65536 live bindings, legitimately
+    /// take half a minute because the library's variable store is a linear list)
     allow: AtomicU64,
+    /// kernel thread id of the worker and its CPU time when the current run started
+    tid: AtomicU64,
+    cpu_start: AtomicU64,
 }
 
 pub fn check(opts: &CheckOpts) -> CheckResult {
@@ -202,6 +230,8 @@ pub fn check(opts: &CheckOpts) -> CheckResult {
                 index: AtomicU64::new(0),
                 since: Mutex::new(Instant::now()),
                 allow: AtomicU64::new(30),
+                tid: AtomicU64::new(0),
+                cpu_start: AtomicU64::new(0),
             })
             .collect(),
     );
@@ -263,7 +293,22 @@ pub fn check(opts: &CheckOpts) -> CheckResult {
                 for b in beats.iter() {
                     let idx = b.index.load(Ordering::Relaxed);
                     let allow = b.allow.load(Ordering::Relaxed);
-                    if idx > 0 && b.since.lock().unwrap().elapsed() > Duration::from_secs(allow) {
+                    if idx == 0 {
+                        continue;
+                    }
+                    // CPU time consumed by this run (falls back to a very generous wall-clock
+                    // limit where /proc is not available)
+                    let tid = b.tid.load(Ordering::Relaxed);
+                    let hung = match thread_cpu_ticks(tid) {
+                        Some(now) => {
+                            now.saturating_sub(b.cpu_start.load(Ordering::Relaxed)) > allow * 100
+                        }
+                        None => {
+                            b.since.lock().unwrap().elapsed() > Duration::from_secs(allow * 20)
+                        }
+                    };
+                    // a run may have finished between the two reads
+                    if hung && b.index.load(Ordering::Relaxed) == idx {
                         *hang.lock().unwrap() = Some(idx - 1);
                         return;
                     }
@@ -291,6 +336,8 @@ pub fn check(opts: &CheckOpts) -> CheckResult {
                 .stack_size(64 << 20)
                 .spawn(move || {
                     let mut stats = Stats::new();
+                    let tid = my_tid();
+                    beats[w].tid.store(tid, Ordering::Relaxed);
                     loop {
                         let i = next.fetch_add(1, Ordering::Relaxed);
                         if i >= total || i > stop_above.load(Ordering::Relaxed) {
@@ -300,8 +347,11 @@ pub fn check(opts: &CheckOpts) -> CheckResult {
                             truncated.store(true, Ordering::Relaxed);
                             break;
                         }
-                        beats[w].index.store(i + 1, Ordering::Relaxed);
+                        beats[w]
+                            .cpu_start
+                            .store(thread_cpu_ticks(tid).unwrap_or(0), Ordering::Relaxed);
                         *beats[w].since.lock().unwrap() = Instant::now();
+                        beats[w].index.store(i + 1, Ordering::Relaxed);
                         let case = generate(prop, run_seed(seed, prop, i), tier);
                         let heavy = case.program.stmts.len() > 20_000;
                         beats[w]
@@ -364,7 +414,7 @@ pub fn check(opts: &CheckOpts) -> CheckResult {
         let mut ev = evaluate_stub();
         ev.violation = Some(crate::oracle::Violation {
             oracle: "hang",
-            detail: format!("run {i} did not finish within 30 s (every next() must return)"),
+            detail: format!("run {i} consumed more than 30 s of CPU without finishing (every next() must return)"),
         });
         violations.insert(
             0,
@@ -672,10 +722,12 @@ fn evidence_json(
 /// abandoned (the process exits soon after a violation has been reported).
 pub fn evaluate_guarded(prop: Prop, case: &Case, timeout: Duration) -> Eval {
     let (tx, rx) = std::sync::mpsc::channel();
+    let (tid_tx, tid_rx) = std::sync::mpsc::channel();
     let c = case.clone();
     let spawned = std::thread::Builder::new()
         .stack_size(64 << 20)
         .spawn(move || {
+            let _ = tid_tx.send(my_tid());
             let _ = tx.send(evaluate(prop, &c));
         });
     if spawned.is_err() {
@@ -683,6 +735,7 @@ pub fn evaluate_guarded(prop: Prop, case: &Case, timeout: Duration) -> Eval {
     }
     let started = Instant::now();
     let limit = rss_limit();
+    let tid = tid_rx.recv_timeout(Duration::from_secs(60)).unwrap_or(0);
     loop {
         match rx.recv_timeout(Duration::from_millis(50)) {
             Ok(ev) => return ev,
@@ -697,7 +750,13 @@ pub fn evaluate_guarded(prop: Prop, case: &Case, timeout: Duration) -> Eval {
         if runaway {
             RUNAWAY.store(true, Ordering::SeqCst);
         }
-        if runaway || started.elapsed() > timeout {
+        // the time limit is CPU time of the evaluating thread (wall clock, very generously,
+        // only where /proc is not available)
+        let timed_out = match thread_cpu_ticks(tid) {
+            Some(ticks) => ticks > timeout.as_secs() * 100,
+            None => started.elapsed() > timeout * 20,
+        };
+        if runaway || timed_out {
             let mut ev = evaluate_stub();
             ev.violation = Some(crate::oracle::Violation {
                 oracle: "hang",
@@ -709,7 +768,7 @@ pub fn evaluate_guarded(prop: Prop, case: &Case, timeout: Duration) -> Eval {
                     )
                 } else {
                     format!(
-                        "the simulated run did not finish within {} s (every next() must return)",
+                        "the simulated run consumed more than {} s of CPU without finishing (every next() must return)",
                         timeout.as_secs()
                     )
                 },
